@@ -77,10 +77,13 @@ def accAdd (pm : ProgramMap) (pid : Nat) (q : List Packet) (p : Packet) : List P
 
 abbrev Pool := List (Nat × List Packet)   -- PID ↦ queue (no duplicate keys)
 
-def Pool.get (pool : Pool) (pid : Nat) : List Packet :=
-  match pool.find? (·.1 == pid) with | some e => e.2 | none => []
-def Pool.put (pool : Pool) (pid : Nat) (q : List Packet) : Pool :=
-  if pool.any (·.1 == pid) then pool.map (fun e => if e.1 == pid then (pid, q) else e) else pool ++ [(pid, q)]
+def Pool.get : Pool → Nat → List Packet
+  | [], _ => []
+  | (k, q) :: r, pid => if k = pid then q else Pool.get r pid
+
+def Pool.put : Pool → Nat → List Packet → Pool
+  | [], pid, q => [(pid, q)]
+  | (k, v) :: r, pid, q => if k = pid then (pid, q) :: r else (k, v) :: Pool.put r pid q
 
 /-- `packetPool.addUnlocked` -/
 def poolAdd (pm : ProgramMap) (pool : Pool) (p : Packet) : List Packet × Pool :=
